@@ -232,10 +232,10 @@ LEGS = {
                             PEEKNS="{2}", MOD=800 if q else 40, SEED=seed)),
     ],
     "C09": lambda q, seed: [
-        ("G-pos", dict(CFGS="U_C09", SYMS="Syms_C09", MAXLEN=3 if q else 4, OPS='{"nextpos", "setoffset"}', MAXDEPTH=5 if q else 6,
-                       DRAIN="FALSE", BACKONLY="TRUE", ALLPOS="TRUE", MOD=4 if q else 1, SEED=seed)),
+        ("G-pos", dict(CFGS="U_C09", SYMS="Syms_C09", MAXLEN=4, OPS='{"nextpos", "setoffset"}', MAXDEPTH=4 if q else 5,
+                       DRAIN="FALSE", BACKONLY="TRUE", ALLPOS="TRUE", MOD=24 if q else 6, SEED=seed)),
         ("G-scanpos", dict(CFGS="U_C09", SYMS="Syms_C09", MAXLEN=5 if q else 6, OPS='{"nextpos"}', MAXDEPTH=9, DRAIN="TRUE",
-                           ALLPOS="TRUE", MOD=2 if q else 1, SEED=seed)),
+                           ALLPOS="TRUE", MOD=8 if q else 2, SEED=seed)),
     ],
     "C10": lambda q, seed: [
         ("G-offsets", dict(CFGS="U_C10", SYMS="Syms_C06", MAXLEN=3, OPS='{"next", "peek", "advance", "setoffset", "setmode"}',
